@@ -235,6 +235,21 @@ func (sc *Scenario) Exec() (*Run, error) {
 				return fail(fmt.Errorf("no task %d", a.Tid))
 			}
 			a.Tid = w.Rep(a.Tid).ID
+			if sched != nil {
+				// statement-level mode: other steps may be held at the gate; run this one
+				// to its end through the scheduler
+				for guard := 0; guard < 100000; guard++ {
+					ended, r := sched.Advance(a.Tid)
+					if ended {
+						r.Crashed = w.Rec.Crashed()
+						if err := afterStep(r); err != nil {
+							return fail(err)
+						}
+						break
+					}
+				}
+				break
+			}
 			if err := afterStep(w.Step(a.Tid)); err != nil {
 				return fail(err)
 			}
